@@ -26,6 +26,8 @@ func init() {
 		ruleColdRead(c, "C05.F12")
 		ruleZ10(c, "C05.F13")
 		ruleF14(c, "C05.F14")
+		ruleK5(c, "C05.F15")
+		ruleF16(c, "C05.F16")
 		ruleW1(c, "C05.F7")
 		ruleR3(c, "C05.R3")
 		ruleR6(c, "C05.R6")
@@ -646,4 +648,30 @@ func ruleF14(c *Ctx, id string) {
 	if n == 0 {
 		R.Fail(id, "inode.Shrink|ShrinkSize", P.Pos(V.Shrink.Pos()), "Shrink lowers ShrinkSize", "no store to ShrinkSize found")
 	}
+}
+
+// ruleF16: the size of an inode and the blocks it holds change together only
+// inside package inode: Resize frees (or schedules the freeing of) what a
+// smaller size no longer covers, Write links what a larger one needs.  A store
+// to Inode.Size (or ShrinkSize) anywhere else changes the size without the
+// blocks: a directory "trimmed" by lowering its size keeps a block that the
+// final Resize(0) no longer sees - it stays allocated for ever.
+func ruleF16(c *Ctx, id string) {
+	V, P, R := c.V, c.P, c.R
+	R.Rule(id, "file size and block ownership change together: Inode.Size and Inode.ShrinkSize are stored only by functions of package inode", 3)
+	n := 0
+	for _, fn := range P.RepoFuncs() {
+		if strings.HasPrefix(relPkg(fn), "cmd/") {
+			continue
+		}
+		for _, fw := range FieldWrites(fn) {
+			if fw.Type != V.Inode || (fw.Field != "Size" && fw.Field != "ShrinkSize") {
+				continue
+			}
+			n++
+			ok := relPkg(fn) == "inode"
+			R.Check(ok, id, fmt.Sprintf("%s|stores %s", FuncName(ownerOf(fn)), fw.Field), P.Pos(fw.Instr.Pos()), "the field is stored by package inode only (Resize, Shrink, Write, the constructors and the decoder)", "package inode", "the size is changed outside package inode, without Resize: blocks beyond the new size stay linked and allocated but are no longer covered by the size that the final truncation frees")
+		}
+	}
+	R.Check(n > 0, id, "inventory|stores to Size/ShrinkSize", "?", "the stores are enumerated", fmt.Sprintf("%d stores", n), "none found")
 }
